@@ -3,6 +3,7 @@
    inductive types.  No Extract Constant. *)
 From Coq Require Import Extraction ExtrOcamlBasic.
 From GV Require Import Tables.ObsTypes Tables.Lookup Gen.Obs Tables.Enum.
+From GV Require Import Tables.Product Tables.RegFactory Api.Api.
 From GV Require Import Base.Bytes Base.Hex Base.LE Vedirect.Frame Vedirect.Port Vedirect.Driver Vedirect.Judge Vedirect.Resync.
 Extraction Language OCaml.
 Set Extraction KeepSingleton.
@@ -12,4 +13,6 @@ Extraction "gvcore.ml"
   vd_new run_calls le_encode le_encode_signed checksum hex_upper
   C01_call_ok C05_call_ok C06_call_ok call_is_typed call_is_get
   a_get_call a_get a_result_matches items_of_events
-  obs_fieldlists fl_fields fl_render render_ok f_map f_name.
+  obs_fieldlists fl_fields fl_render render_ok f_map f_name
+  connect read_register stream_register_list stream_plan number_value trim_space obs_product obs_reglist class_of
+  enum_map_of fl_of new_enum int_of_uint64 le_uint le_int strip_nul.
